@@ -84,6 +84,21 @@ CHECKS = {
     technique="CBMC proof of the MPI reduction operator's laws (commutativity on the view as promised by is_commutative); native exhaustive slice arithmetic; bounded runs of the unchanged entry points against executable contract models of Boost.MPI and TBB with per-rank heap layouts; replay under the real mpiexec",
     text="Operator laws proved; everything about rank counts and layouts is a bounded stand-in: P in {1,2,3,4,5,7}, per-rank edge-address orders (identical / reversed / seeded), collectives checked for mismatch, early return and hang, rank 0 judged against the brute-force optimum. Found and repaired: mcb_sva_signed_mpi depended on pointer order (non-minimum result with differing layouts, reproduced under real mpiexec).",
     note="Boost.MPI model and TBB model are assumptions; serialisation bypassed in the model (exercised by the real-mpiexec replay and the demo runs of C11); only edge-node addresses are permuted."),
+ "C07": dict(
+    engine="E1+E2+E3", category="other", design_ref="DESIGN.md 4/C07",
+    technique="CBMC safety obligations (bounds, pointer validity/lifetime, overflow, division, conversions) and frame clauses on every extracted/included unit; bounded runs of all stand-in drivers under ASan+LSan+UBSan incl. dereferencing every handed-back descriptor",
+    text="Per-function absence of UB for all inputs in each unit's bound (CBMC) for the code within reach; for the Boost.Graph templates only bounded sanitizer runs on the quick sets (empty graph, single vertex, forests, disconnected graphs, sequential and real TBB). Found and repaired: heap-use-after-free through descriptors of the freed spanner.",
+    note="UB invisible to both CBMC and sanitizers is not claimed (e.g. references to destroyed stateless temporaries); libtbb/libstdc++ uninstrumented; MPI entry points are not run under sanitizers."),
+ "C08": dict(
+    engine="E3", category="exploration", design_ref="DESIGN.md 4/C08",
+    technique="bounded (sampled) enforcement of relational postconditions over pairs of calls on graphs beyond the oracle; exact comparison of returned values; no deductive content",
+    text="Sampled: seeded graphs up to 160/300 vertices, dimension in the hundreds, 7 relations each (variants agree, renumbering, isolated/pendant/bridge, disjoint union, subdivision, power-of-two scaling, Horton oracle for n<=70).",
+    note="Exact-domain weights so that equal optima compare equal; on oracle-reachable graphs the property is a corollary of C02."),
+ "C09": dict(
+    engine="E3", category="exploration", design_ref="DESIGN.md 4/C09, 6 (D7)",
+    technique="bounded enforcement of the exact-variant contract with 1e-9 relative tolerance against an exact fixed-point brute-force oracle on seeded graphs with inexact double weights; known finding D7 keyed by site and kind",
+    text="Bounded stand-in only (floating point with rounding is outside CBMC's reach here). Known finding: the isometric-tree variants emit an empty cycle / a non-minimum basis on decimal-fraction weights (known_findings.txt, 4 site/kind pairs, fixed instances exercised every run); any other failure is a VIOLATION.",
+    note="Weights limited to [1e-3,1e3] so that the fixed-point oracle is exact; n<=9/10."),
 }
 
 NOT_APPLICABLE = {p: WIP for p in ["C%02d" % i for i in range(1, 21)] if p not in CHECKS}
